@@ -2,6 +2,7 @@ package symgo
 
 import (
 	"fmt"
+	"math"
 	"go/types"
 	"strings"
 
@@ -404,6 +405,8 @@ func (in *Interp) installStubs() {
 	in.installLibStubs()
 	in.installReflectStubs()
 	in.installBoltStubs()
+	in.installBitsetStubs()
+	in.installStringStubs()
 	// errors: errors.New runs from its own SSA (it is &errorString{text}); fmt.Errorf builds a
 	// *fmt.wrapError (when %w wraps an error) or *errors.errorString with an opaque message.
 	in.stubs["fmt.Errorf"] = func(in *Interp, fn *ssa.Function, args []Value) Value {
@@ -450,6 +453,43 @@ func (in *Interp) installStubs() {
 		in.abort("limit", "errors.Is chain depth")
 		return nil
 	}
+	for _, name := range []string{"Log10", "Sqrt", "Log", "Sin", "Cos", "Asin", "Abs", "Floor", "Ceil"} {
+		name := name
+		in.stubs["math."+name] = func(in *Interp, fn *ssa.Function, args []Value) Value {
+			x := args[0].(*Term)
+			if x.IsConst() {
+				f := math.Float64frombits(x.Uint())
+				var r float64
+				switch name {
+				case "Log10":
+					r = math.Log10(f)
+				case "Sqrt":
+					r = math.Sqrt(f)
+				case "Log":
+					r = math.Log(f)
+				case "Sin":
+					r = math.Sin(f)
+				case "Cos":
+					r = math.Cos(f)
+				case "Asin":
+					r = math.Asin(f)
+				case "Abs":
+					r = math.Abs(f)
+				case "Floor":
+					r = math.Floor(f)
+				case "Ceil":
+					r = math.Ceil(f)
+				}
+				return BVu(64, math.Float64bits(r))
+			}
+			if name == "Abs" {
+				return BinBV("bvand", x, BVu(64, 0x7fffffffffffffff))
+			}
+			return UF("math_"+name, 64, x) // transcendental functions are uninterpreted on symbolic arguments
+		}
+	}
+	in.stubs["runtime.NumCPU"] = func(in *Interp, fn *ssa.Function, args []Value) Value { return BVi(64, 2) }
+	in.stubs["runtime.Gosched"] = func(in *Interp, fn *ssa.Function, args []Value) Value { in.schedule(true); return nil }
 	in.stubs["time.Now"] = func(in *Interp, fn *ssa.Function, args []Value) Value { return zero(fn.Signature.Results().At(0).Type()) }
 	in.stubs["math.Float64bits"] = func(in *Interp, fn *ssa.Function, args []Value) Value { return args[0] }
 	in.stubs["math.Float64frombits"] = func(in *Interp, fn *ssa.Function, args []Value) Value { return args[0] }
